@@ -1376,6 +1376,52 @@ def f32_bits(x):
     return struct.unpack("<I", struct.pack("<f", x))[0]
 
 
+def gap_family(seed):
+    """C20, tracker level: constructed histories in which an object is tracked, stays away for m frames - completely EMPTY
+    predict calls of its scene (simple APIs; skip_epochs for the batch API, which cannot submit an empty scene) - and
+    re-appears inside max_idle, displaced so that dist_in_2r lies BETWEEN the limits the table configures for a small and
+    for a large epoch gap.  The limit of the TRUE gap (one epoch per predict call of the scene, empty or not) decides."""
+    one = f32_bits(1.0)
+    out = []
+    k = 0
+    lims = [(0.2, 3.0), (0.15, 2.0)]
+    for tracker in ("visual", "sort", "batch", "batchvisual"):
+        for m in (1, 2):
+            for (small, big) in lims:
+                for order in (0, 1):
+                    for dx in (12.0, 16.0, 20.0):
+                        for metric in (("iou", f32_bits(0.1)), ("maha", None)):
+                            # order 0: the larger gap has the tighter limit; order 1: the smaller gap has it
+                            table = [[(1, f32_bits(big)), (3, f32_bits(small))]] if order == 0 else [[(1, f32_bits(small))], [(3, f32_bits(big))]]
+                            scene = (k * 7 + seed) % 4
+                            hgt = [40.0, 60.0][k % 2]
+                            x0 = 100.0 + 4.0 * ((k + seed) % 9)
+
+                            def det(uid, x):
+                                d = {"uid": uid, "xc": f32_bits(x), "yc": f32_bits(120.0), "angle": None, "aspect": one,
+                                     "height": f32_bits(hgt), "conf": one, "custom": uid}
+                                if tracker in ("visual", "batchvisual"):
+                                    d["q"] = str(one)
+                                    d["feat"] = "%d/0/0/%d" % (one, f32_bits(0.5))
+                                return d
+                            ops = [{"kind": "predict", "scene": scene, "dets": [det(1, x0)]},
+                                   {"kind": "predict", "scene": scene, "dets": [det(2, x0)]}]
+                            for _ in range(m):
+                                if tracker in ("batch", "batchvisual"):
+                                    ops.append({"kind": "skip", "scene": scene, "n": 1})
+                                else:
+                                    ops.append({"kind": "predict", "scene": scene, "dets": []})
+                            ops.append({"kind": "predict", "scene": scene, "dets": [det(3, x0 + dx * hgt / 40.0)]})
+                            ops.append({"kind": "epoch", "scene": scene})
+                            h = {"k": 200000 + k, "tracker": tracker, "shards": 1 + k % 3, "vshards": 1 + k % 2, "history": 2 + k % 3,
+                                 "max_idle": 3, "metric": metric, "minconf": f32_bits(0.05), "constraints": table, "ops": ops,
+                                 "vopts": ([("vis", "euc:%d" % one), ("votes", "1"), ("minlen", "1"), ("maxobs", "3"), ("quse", "0"), ("qcol", "0")]
+                                           if tracker in ("visual", "batchvisual") else [])}
+                            out.append(h)
+                            k += 1
+    return out
+
+
 def c20t_run(chk, pid="C20T", max_hist=200):
     """proof stage for Props/C20T.v + the two tracker-level oracles on the implementation:
     (a) a table that no considered pair violates is a no-op (run with the table == run without),
@@ -1397,16 +1443,35 @@ def c20t_run(chk, pid="C20T", max_hist=200):
         if b:
             nb_hist += 1
         if v:
-            viol.setdefault("tracker-binding", (k, v[0]))
-    for key, (k, v) in viol.items():
-        h = hists[k]
+            viol.setdefault("tracker-binding", (h, v[0]))
+    # constructed family: disappear / empty frames / re-appear between the limits of a small and a large epoch gap
+    gh = gap_family(chk.seed)
+    gr = run_impl(gh)
+    gap_stats = Counter()
+    for h, r in zip(gh, gr):
+        if r is None:
+            continue
+        b, v = constraint_facts(h, r)
+        binding_pairs += b
+        gap_stats[h["tracker"]] += 1
+        # the re-appearing detection: continued (same id as before) or started a new track
+        last = [st["res"][1] for st in r["steps"] if st["res"] and st["res"][0] == "records" and st["res"][1]]
+        if last and last[-1][0]["len"] > 1:
+            gap_stats["continued"] += 1
+        if b:
+            gap_stats["binding"] += 1
+        if v:
+            viol.setdefault("tracker-binding-gap:" + h["tracker"], (h, v[0]))
+    for key, (h, v) in viol.items():
 
         def f(hh):
             rr = run_impl([hh])[0]
             return bool(rr and constraint_facts(hh, rr)[1])
         small = shrink_history(h, f) if f(h) else h
-        msg = ("op %d: detection %d was attached to track %d at epoch gap %d although dist_in_2r %.4f exceeds the limit %.4f"
-               % v)
+        rs_small = run_impl([small])[0]
+        vs = constraint_facts(small, rs_small)[1] if rs_small else []
+        msg = ("op %d: detection %d was attached to track %d at epoch gap %d (one epoch per predict call of the scene, empty or "
+               "not, n per skip) although dist_in_2r %.4f exceeds the limit %.4f configured for that gap" % (vs[0] if vs else v))
         chk.violation("C20:" + key, msg, replay_obj(small, msg, {"oracle": key, "original_history": h["k"], "seed": chk.seed}))
         found = True
     # (a) non-binding tables: the history's own table when no considered pair violates it, and a huge-limit table
@@ -1445,6 +1510,9 @@ def c20t_run(chk, pid="C20T", max_hist=200):
         found = True
     chk.coverage["tracker_level"] = {"histories_with_binding_pairs": nb_hist, "binding_pairs": binding_pairs,
                                      "nonbinding_run_pairs_compared": compared,
+                                     "gap_family": dict(gap_stats, histories=len(gh),
+                                                        rule="object away for 1-2 empty frames (skip for the batch API), re-appears with "
+                                                             "dist_in_2r between the limits of gap 1 and gap 3; both table orders; all four trackers"),
                                      "failing_keys": sorted(list(viol.keys()) + list(nfail.keys()))}
     report_correspondence(chk, pid, data, found)
 
